@@ -24,6 +24,9 @@ SPEC = ROOT / "spec" / "insim_v9.json"
 INT_W = {"u8": 1, "i8": 1, "u16": 2, "i16": 2, "u32": 4, "i32": 4}
 
 
+HDR_SLOW = {"Res": "measured: IS_RES through the Packet writer does not finish in 900 s even with every field constant"}
+
+
 def load_spec():
     return json.loads(SPEC.read_text())
 
@@ -176,41 +179,47 @@ fn c02_const_small_subtypes() {{
     for v, (ty, magic) in kinds.items():
         if v not in isp:
             raise Undecided(f"spec table: no type number for packet kind {v} (new kind?)")
+        if v in HDR_SLOW:
+            continue
         g = KindGen(d, count=0, alt=False, len_mode=True)
+        g.depth = 1     # every field constant: only the type byte and the request id matter here
         try:
             val = g.struct_value(ty)
         except Unsupported:
             continue
-        hdr_kinds.append((v, ty, val))
-    for ci, ch in enumerate(chunks(hdr_kinds, 6)):
-        body = ""
-        for v, ty, val in ch:
-            body += f"""    {{
-        let p = {val};
-        let reqi = p.reqi.0;
-        let pk = Packet::{v}(p);
-        let mut w = Cursor::new(Vec::new());
-        let r = pk.write_le(&mut w);
-        assert!(r.is_ok());
-        let bytes = w.into_inner();
-        assert!(bytes[0] == {isp[v]}, "{v}: packet type number {isp[v]}");
-        assert!(bytes[1] == reqi, "{v}: byte 2 of the frame is the request id");
-        core::mem::forget(r);
-        core::mem::forget(pk);
-    }}
-"""
+        it = d[ty]
+        computed_pad = any(re.search(r"pad_(after|before)\s*=\s*[^0-9\s]", f.attr_text()) for f in it.fields)
+        hdr_kinds.append((v, ty, val, g.needs_random_state, computed_pad))
+    for v, ty, val, rs, cpad in hdr_kinds:
+        attrs = ""
+        if rs:
+            attrs += "#[kani::stub(std::hash::RandomState::new, verif_random_state)]\n"
+        if cpad:
+            attrs += "#[kani::unwind(10)]\n"
         text.append(f"""
-//@ id: header_{ci}
+//@ id: header_{v.lower()}
 //@ prop: C02
 //@ functions: insim/src/packet.rs <Packet as BinWrite>::write_options
-//@ statement: packet kinds {', '.join(v for v, _, _ in ch)}: the Packet writer emits the specification's type number as the type byte and the request id (symbolic) as the next byte - bytes 1 and 2 of every frame (byte 0 is the size: C03)
+//@ statement: packet kind {v}: the Packet writer emits the specification's type number {isp[v]} as the type byte and the request id (ALL 256 values) as the next byte - bytes 1 and 2 of every frame (byte 0 is the size: C03); other fields constant
 //@ timeout: 900
 #[kani::proof]
 #[kani::stub(core::fmt::write, verif_fmt_ok)]
-fn c02_header_{ci}() {{
-{body}}}
+{attrs}fn c02_header_{v.lower()}() {{
+    let mut p = {val};
+    let reqi: u8 = kani::any();
+    p.reqi = RequestId(reqi);
+    let pk = Packet::{v}(p);
+    let mut w = Cursor::new(Vec::new());
+    let r = pk.write_le(&mut w);
+    assert!(r.is_ok());
+    let bytes = w.into_inner();
+    assert!(bytes[0] == {isp[v]}, "{v}: packet type number {isp[v]}");
+    assert!(bytes[1] == reqi, "{v}: byte 2 of the frame is the request id");
+    core::mem::forget(r);
+    core::mem::forget(pk);
+}}
 """)
-    not_hdr = sorted(set(kinds) - {v for v, _, _ in hdr_kinds})
+    not_hdr = sorted(set(kinds) - {h[0] for h in hdr_kinds})
 
     # ---------------------------------------------------------- field layout
     scale = spec["scale_ms"]
@@ -276,5 +285,5 @@ fn c02_layout_{v.lower()}() {{
     hs = [h for h in parse_harnesses("insim", "verif_gen_c02", src) if prop in h.props]
     gen_c02.uncovered = [("C02", v, "no layout row in the specification table (only kinds whose layout the transcriber is certain of are listed)")
                          for v in sorted(set(kinds) - set(spec["kinds"]))] + \
-                        [("C02", v, "header bytes: value cannot be constructed under Kani (hash set / float printing / hand-written text)") for v in not_hdr]
+                        [("C02", v, "header bytes: " + HDR_SLOW.get(v, "value cannot be constructed under Kani (float printing / hand-written text)")) for v in not_hdr]
     return "insim", "verif_gen_c02", src, hs
